@@ -46,6 +46,9 @@ op_strategy = st.one_of(
                            "types": gen.subsets(gen.CI_VARIANT_TYPES + ["self"], max_size=3), "recursive": st.booleans()}),
     st.fixed_dictionaries({"op": st.just("query"), "on": st.integers(-1, 30), "arch": st.sampled_from(ARCHES + ["src", None]),
                            "types": gen.subsets(gen.CI_VARIANT_TYPES + ["self"], max_size=3), "recursive": st.just(True)}),
+    # asked of the compose itself (the entry point most callers use), mostly without a type filter
+    st.fixed_dictionaries({"op": st.just("query"), "on": st.just(-1), "arch": st.sampled_from(ARCHES + ["src", None, None]),
+                           "types": st.one_of(st.just([]), st.just([]), gen.subsets(gen.CI_VARIANT_TYPES, max_size=3)), "recursive": st.booleans()}),
 )
 _child = st.fixed_dictionaries({"op": st.just("child"), "parent": st.integers(0, 30), "id": st.sampled_from(IDS), "type": _type, "sel": _sel,
                                 "deep": st.booleans()})
@@ -331,6 +334,12 @@ def history_case(case):
             real_types = [t for t in types if t != "self"]
             if not types and op["arch"] in (None, "src"):
                 check(sorted(ulist) == sorted(scope), "query-incomplete", lambda: "step %d: no filter returned %r, level/forest is %r" % (step, ulist, sorted(scope)))
+            elif not types:
+                # an arch filter alone loses nothing either: a child's arches are among its parent's, so every variant having
+                # the arch is reached through parents having it
+                having = sorted(u for u in scope if op["arch"] in forest.nodes[u]["arches"])
+                check(sorted(ulist) == having, "query-incomplete", lambda: "step %d: arch=%r (recursive=%r) returned %r, variants having it: %r" % (
+                    step, op["arch"], op["recursive"], ulist, having))
             if "self" in types and on is not None:
                 check(objs[on] in got, "query-self-missing", "step %d: 'self' requested but receiver not returned" % step)
             if op["recursive"] and (op["arch"] not in (None,) or real_types) and got:
